@@ -8,10 +8,12 @@ import (
 	"fmt"
 	"io"
 	"math/big"
+	"runtime/debug"
 
 	"github.com/bilibili/smgo/sm2"
 	"pgregory.net/rapid"
 	"verif.local/ref/gen"
+	"verif.local/ref/guard"
 	"verif.local/ref/sm2gen"
 	"verif.local/ref/stats"
 )
@@ -60,12 +62,25 @@ func sameAll(a [][]byte, bs ...[]byte) bool {
 	return true
 }
 
+var (
+	roRing [64]*guard.Buf
+	roNext int
+)
 
 // recordLayout places the given byte strings one after another, in a drawn order, in ONE buffer and returns sub-slices whose
 // CAPACITY extends over everything that follows (as when a caller parses a wire record in place: x || msg || r || s ...), plus a
 // function reporting whether any byte of the whole buffer changed. A callee that appends to an input slice or writes behind its
 // length corrupts the neighbouring field — visible both in the result and in the buffer comparison.
 func recordLayout(t *rapid.T, label string, fields ...[]byte) ([][]byte, func() string) {
+	return recordLayoutOpt(t, label, true, fields...)
+}
+
+// recordLayoutRW is recordLayout for callers that go on writing into the fields themselves (never read-only).
+func recordLayoutRW(t *rapid.T, label string, fields ...[]byte) ([][]byte, func() string) {
+	return recordLayoutOpt(t, label, false, fields...)
+}
+
+func recordLayoutOpt(t *rapid.T, label string, mayBeReadOnly bool, fields ...[]byte) ([][]byte, func() string) {
 	order := make([]int, len(fields))
 	for i := range order {
 		order[i] = i
@@ -78,7 +93,15 @@ func recordLayout(t *rapid.T, label string, fields ...[]byte) ([][]byte, func() 
 	for _, f := range fields {
 		total += len(f)
 	}
+	// one record in three lives in a READ-ONLY mapping that ends at an inaccessible page: every field is an input, so even a write
+	// that is undone before the call returns (invisible to the comparison below) faults
+	var g *guard.Buf
 	buf := make([]byte, total+48)
+	if mayBeReadOnly && gen.Uniform(t, label+".readonly", 0, 2) == 0 {
+		g = guard.End(total + 48)
+		buf = g.B
+		debug.SetPanicOnFault(true)
+	}
 	for i := total; i < len(buf); i++ {
 		buf[i] = 0xC5
 	}
@@ -93,6 +116,15 @@ func recordLayout(t *rapid.T, label string, fields ...[]byte) ([][]byte, func() 
 		off += len(fields[idx])
 	}
 	snapshot := append([]byte(nil), buf...)
+	if g != nil {
+		g.ReadOnly()
+	}
+	if g != nil {
+		// the mapping outlives the case (callers may still look at the fields); the one made 64 records ago is released
+		roRing[roNext%len(roRing)].Free()
+		roRing[roNext%len(roRing)] = g
+		roNext++
+	}
 	return out, func() string {
 		if bytes.Equal(buf, snapshot) {
 			return ""
@@ -105,7 +137,6 @@ func recordLayout(t *rapid.T, label string, fields ...[]byte) ([][]byte, func() 
 		return "changed"
 	}
 }
-
 
 // deadReader delivers n bytes and then fails.
 type deadReader struct {
@@ -205,7 +236,6 @@ func foreignCalls(t *rapid.T, rec *stats.Recorder, label string) {
 		rec.Tally("foreign-calls-before:some")
 	}
 }
-
 
 // resplit presents, before the judged call, THE SAME BYTES cut at different field boundaries (id one byte longer and the key one
 // byte shorter, and the other way round) to ZA/Verify: anything keyed by the concatenation of the fields instead of the fields
